@@ -83,11 +83,13 @@ theorem valEntry_ok (ik : Bool) (rec : CVal → Res (Option CVal)) (kv a : CVal 
           subst h
           exact ⟨rfl, rfl⟩
 
+/-- a present option: its value went through the before-validator, the field type in the model's mode,
+    and then the after-validator -/
 theorem valField_present (rec : Bool → STy → CVal → Res (Option CVal)) (s : ObjSchema)
     (kvs : List (CVal × CVal)) (f : Field) (x : CVal) (a : CVal × CVal)
     (hl : CVal.lookupStr kvs f.name = some x) (h : valField rec s kvs f = .ok (some a)) :
-    ∃ y, rec s.strict f.ty (applyStrToList f x) = .ok (some y) ∧ a = (CVal.str f.name, y) := by
-  unfold valField at h
+    ∃ y, rec s.strict f.ty (applyStrToList f x) = .ok (some y) ∧ a = (CVal.str f.name, applyNaiveIsUtc f y) := by
+  unfold valField valFieldValue at h
   simp only [hl] at h
   cases hr : rec s.strict f.ty (applyStrToList f x) with
   | error e => simp [hr, bind, Except.bind] at h
